@@ -69,15 +69,23 @@ def rotr (v count : Int) (bits : Nat) : Except Err Int :=
     let c := (count % (bits : Int)).toNat
     .ok (PyInt.or (v / 2 ^ c) (PyInt.and (v * 2 ^ (bits - c)) mask))
 
-/-- loop of `reverse_bits` **as it is in the source now**:
-    `y = 0; pos = bits - 1; while pos > 0: y += (v & 1) << pos; v >>= 1; pos -= 1`.
-    The argument is the current `pos`. -/
+/-- loop of `reverse_bits` (after the `fix:` commit):
+    `y = 0; pos = bits - 1; while pos >= 0: y += (v & 1) << pos; v >>= 1; pos -= 1`.
+    The argument is `pos + 1` (the number of remaining iterations). -/
 def revLoop (y v : Int) : Nat → Int
   | 0 => y
-  | p + 1 => revLoop (y + PyInt.and v 1 * 2 ^ (p + 1)) (v / 2) p
+  | p + 1 => revLoop (y + PyInt.and v 1 * 2 ^ p) (v / 2) p
 
-/-- `reverse_bits(v, bits)`; for `bits = 0`, `pos = -1` and the loop does not run -/
-def reverseBits (v : Int) (bits : Nat) : Int := revLoop 0 v (bits - 1)
+/-- `reverse_bits(v, bits)` -/
+def reverseBits (v : Int) (bits : Nat) : Int := revLoop 0 v bits
+
+/-- the loop as it was at the pinned commit (`while pos > 0`; argument = `pos`).  Kept only
+    for the recorded negation witness in `Props/C39.lean`. -/
+def revLoopPinned (y v : Int) : Nat → Int
+  | 0 => y
+  | p + 1 => revLoopPinned (y + PyInt.and v 1 * 2 ^ (p + 1)) (v / 2) p
+
+def reverseBitsPinned (v : Int) (bits : Nat) : Int := revLoopPinned 0 v (bits - 1)
 
 /-- `correct(value, bits, signed)`:
     `base = 1 << bits; value %= base;
@@ -149,7 +157,14 @@ def encLoop (v : Int) : Nat → Nat → Except Err Int
       if PyInt.and v2 0xFFFFFF00 = 0 then .ok (PyInt.or ((i : Int) * 2 ^ 8) (PyInt.and v2 0xFF))
       else encLoop v r (i + 1)
 
-def encodeImm32 (v : Int) : Except Err Int := encLoop v 16 0
+/-- `encode_imm32(v)` (after the `fix:` commit):
+    `if not 0 <= v < 2**32: raise ValueError` precedes the loop -/
+def encodeImm32 (v : Int) : Except Err Int :=
+  if ¬ (0 ≤ v ∧ v < 2 ^ 32) then .error .ValueError else encLoop v 16 0
+
+/-- `encode_imm32` as it was at the pinned commit (no range check); kept only for the
+    recorded negation witness in `Props/C39.lean`. -/
+def encodeImm32Pinned (v : Int) : Except Err Int := encLoop v 16 0
 
 /-- loop of `align`: `while (value % m) != 0: value = value + 1`.  The loop runs fewer
     than `m` times; the last argument bounds the iterations (initially `m`) — that it
